@@ -3,6 +3,7 @@ package c09
 
 import (
 	"encoding/json"
+	"errors"
 	"fmt"
 	"html/template"
 	"sort"
@@ -14,6 +15,7 @@ import (
 	"verif/internal/vk"
 
 	plush "github.com/gobuffalo/plush/v5"
+	"github.com/gobuffalo/plush/v5/helpers/content"
 	"pgregory.net/rapid"
 )
 
@@ -23,18 +25,70 @@ type Case struct {
 	Src      string                     `json:"src"` // informational
 	Prog     json.RawMessage            `json:"prog"`
 	Partials map[string]json.RawMessage `json:"partials,omitempty"`
+	// Bare: partial("n") and contentOf("n") are spelled without the empty data hash.
+	Bare bool `json:"bare,omitempty"`
+	// Again: the template is parsed once and executed twice on fresh contexts; both executions must agree.
+	Again bool `json:"again,omitempty"`
+	// Alt (kind "alt"): the statements do not say whether Prog renders at all (a condition that is a call of a
+	// function whose body fails on an unknown identifier; a silent construct whose body returns from inside a loop
+	// or reads what an earlier iteration bound). The render may fail; IF it succeeds the output must be that of
+	// Alt: the same program with the condition's value written out, or with the silent construct erased.
+	Alt json.RawMessage `json:"alt,omitempty"`
 }
 
 var names = []string{"x", "y", "v", "p", "k"}
 
+// probed everywhere: the pool, the data-only name g, and len - a name of the DATA that is also the name of a default helper
+var allNames = []string{"x", "y", "v", "p", "k", "g", "len"}
+
 func baseData() map[string]interface{} {
-	return map[string]interface{}{"one": []interface{}{"e1"}, "two": []interface{}{1, 2}, "g": "G0"}
+	return map[string]interface{}{"one": []interface{}{"e1"}, "two": []interface{}{1, 2}, "g": "G0", "len": "LEN0"}
 }
 
-func run(r *vk.Run, prog []model.Node, partials map[string][]model.Node, class string) *vk.Fail {
+// listIter is an Iterator for both sides (model.Iterator and plush.Iterator have the same method).
+type listIter struct {
+	vs []interface{}
+	i  int
+}
+
+func (l *listIter) Next() interface{} {
+	if l.i >= len(l.vs) {
+		return nil
+	}
+	l.i++
+	return l.vs[l.i-1]
+}
+
+// helpers known to both sides: iter(a, b, ...) returns a fresh Iterator over its arguments
+func helpers() map[string]model.Helper {
+	return map[string]model.Helper{"iter": func(args []interface{}) (interface{}, error) {
+		return &listIter{vs: append([]interface{}{}, args...)}, nil
+	}}
+}
+
+type opts struct {
+	bare  bool
+	alt   []model.Node
+	again bool   // parse once, execute twice on fresh contexts
+	why   string // with alt: what alt is
+}
+
+var errTwoExecs = errors.New("two executions of one parsed template disagree")
+
+func bareText(s string) string { return strings.ReplaceAll(s, ", {})", ")") }
+
+func run(r *vk.Run, prog []model.Node, partials map[string][]model.Node, class string, o opts) *vk.Fail {
 	pr := model.Printer{}
 	src := pr.Nodes(prog)
-	c := Case{Src: src, Prog: model.Encode(prog)}
+	if o.bare {
+		src = bareText(src)
+	}
+	c := Case{Src: src, Prog: model.Encode(prog), Bare: o.bare, Again: o.again}
+	kind := "scope"
+	if o.alt != nil {
+		c.Alt = model.Encode(o.alt)
+		kind = "alt"
+	}
 	ptext := map[string]string{}
 	var pnames []string
 	for n, body := range partials {
@@ -43,36 +97,72 @@ func run(r *vk.Run, prog []model.Node, partials map[string][]model.Node, class s
 		}
 		c.Partials[n] = model.Encode(body)
 		ptext[n] = pr.Nodes(body)
+		if o.bare {
+			ptext[n] = bareText(ptext[n])
+		}
 		pnames = append(pnames, n)
 	}
 	sort.Strings(pnames)
-	defer r.Watch("scope", c)()
-	want := model.RunWith(prog, baseData(), nil, partials)
-	if want.Unspec != "" {
+	defer r.Watch(kind, c)()
+	ref := prog
+	if o.alt != nil {
+		ref = o.alt
+	}
+	want := model.RunWith(ref, baseData(), helpers(), partials)
+	if want.Unspec != "" || (o.alt != nil && want.Err != "") {
 		r.Exclude("unspecified")
 		return nil
 	}
-	ctx := model.Context(baseData(), nil)
-	ctx.Set("partialFeeder", func(name string) (string, error) {
-		s, ok := ptext[name]
-		if !ok {
-			return "", fmt.Errorf("no partial %q", name)
+	mkctx := func() *plush.Context {
+		ctx := model.Context(baseData(), helpers())
+		ctx.Set("partialFeeder", func(name string) (string, error) {
+			s, ok := ptext[name]
+			if !ok {
+				return "", fmt.Errorf("no partial %q", name)
+			}
+			return s, nil
+		})
+		ctx.Set("blk", func(help plush.HelperContext) (template.HTML, error) {
+			s, err := help.BlockWith(help.New())
+			return template.HTML(s), err
+		})
+		// cofb is contentOf for a name that nothing stores: contentOf then renders its own (default) block, with the data
+		ctx.Set("cofb", func(data map[string]interface{}, help plush.HelperContext) (template.HTML, error) {
+			return content.ContentOf("a name that nothing stores", data, help)
+		})
+		ctx.Set("blkd", func(data map[string]interface{}, help plush.HelperContext) (template.HTML, error) {
+			hc := help.New()
+			for k, v := range data {
+				hc.Set(k, v)
+			}
+			s, err := help.BlockWith(hc)
+			return template.HTML(s), err
+		})
+		return ctx
+	}
+	var res vk.Res
+	if !o.again {
+		res = vk.Safe(func() (string, error) { return plush.Render(src, mkctx()) })
+	} else {
+		// the template is parsed once and executed twice, each time on a fresh context: the second execution
+		// must not see anything of the first (it is judged below in place of the first, which must agree with it)
+		res = vk.Safe(func() (string, error) {
+			t, err := plush.NewTemplate(src)
+			if err != nil {
+				return "", err
+			}
+			o1, e1 := t.Exec(mkctx())
+			o2, e2 := t.Exec(mkctx())
+			if (e1 == nil) != (e2 == nil) || (e1 == nil && o1 != o2) {
+				return "", fmt.Errorf("%w: first %q, %v; second %q, %v", errTwoExecs, o1, e1, o2, e2)
+			}
+			return o2, e2
+		})
+		if errors.Is(res.Err, errTwoExecs) {
+			r.Count(src, class)
+			return &vk.Fail{Kind: kind, Case: c, Msg: src + ": " + res.Err.Error()}
 		}
-		return s, nil
-	})
-	ctx.Set("blk", func(help plush.HelperContext) (template.HTML, error) {
-		s, err := help.BlockWith(help.New())
-		return template.HTML(s), err
-	})
-	ctx.Set("blkd", func(data map[string]interface{}, help plush.HelperContext) (template.HTML, error) {
-		hc := help.New()
-		for k, v := range data {
-			hc.Set(k, v)
-		}
-		s, err := help.BlockWith(hc)
-		return template.HTML(s), err
-	})
-	res := vk.Safe(func() (string, error) { return plush.Render(src, ctx) })
+	}
 	full := src
 	for _, n := range pnames {
 		full += fmt.Sprintf("\n  partial %s: %s", n, ptext[n])
@@ -82,12 +172,24 @@ func run(r *vk.Run, prog []model.Node, partials map[string][]model.Node, class s
 		return map[string]interface{}{"template": src, "partials": ptext, "expected": want.Out, "expected_error": want.Err}
 	})
 	fail := func(f string, a ...interface{}) *vk.Fail {
-		return &vk.Fail{Kind: "scope", Case: c, Msg: full + ": " + fmt.Sprintf(f, a...)}
+		return &vk.Fail{Kind: kind, Case: c, Msg: full + ": " + fmt.Sprintf(f, a...)}
 	}
 	if res.Panicked() {
 		return fail("%s", res)
 	}
+	if o.alt != nil {
+		if res.Err != nil {
+			r.Class(o.why + ": the render failed (allowed)")
+			return nil
+		}
+		r.Class(o.why + ": the render went on")
+		if !match.SameText(res.Out, want.Out) {
+			return fail("the render succeeded, so its output must be that of the %s;\n    got %q, reference says\n    %q", o.why, res.Out, want.Out)
+		}
+		return nil
+	}
 	if want.Err != "" {
+		r.Class("the reference says the render must fail")
 		if res.Err == nil {
 			return fail("reference says error (%s), render gave %q", want.Err, res.Out)
 		}
@@ -121,13 +223,51 @@ func probes(ns ...string) []model.Node {
 	return out
 }
 
+func lit(v interface{}) model.Expr { return model.Lit{V: v} }
+
 func let(n, v string) model.Node { return model.Code{S: model.LetS{Name: n, X: model.Lit{V: v}}} }
 
+func letx(n string, x model.Expr) model.Node { return model.Code{S: model.LetS{Name: n, X: x}} }
+
+// chain is `let n = n + suffix`: the new binding is computed from the one it shadows
+func chain(n, suffix string) model.Node {
+	return letx(n, model.Bin{Op: "+", L: model.Var{Name: n}, R: lit(suffix)})
+}
+
+// spices: shapes added to the fixed let/probe pattern of every level (and drawn by the random generator)
+type spice int
+
+const (
+	spOuterFn spice = 1 << iota // a function defined ONCE at top level is called at every level; it lets x and k before it reads them
+	spAssign                    // a name let-bound in a scope is then re-assigned there with a bare `x = ...`
+	spChain                     // inner shadowing lets read the binding they shadow: let x = x + "~L1"
+	spIfLet                     // a let inside an if block inside the scope, read after the scope has ended
+	spBare                      // partial("n") / contentOf("n") without the empty data hash
+	spAll     = spOuterFn | spAssign | spChain | spIfLet | spBare
+)
+
+var spiceNames = []string{"outer-fn", "assign", "chain-let", "if-let", "bare"}
+
+func (s spice) String() string {
+	if s == 0 {
+		return "plain"
+	}
+	var out []string
+	for i, n := range spiceNames {
+		if s&(1<<i) != 0 {
+			out = append(out, n)
+		}
+	}
+	return strings.Join(out, "+")
+}
+
 type builder struct {
-	partials map[string][]model.Node
-	seq      int
-	repeat   map[int]bool // levels whose construct is entered twice
-	replay   bool         // a block of literal text stored at top level is replayed with contentOf at every deeper level, before that level's lets
+	partials  map[string][]model.Node
+	seq       int
+	repeat    map[int]bool // levels whose construct is entered twice
+	replay    bool         // a block of literal text stored at top level is replayed with contentOf at every deeper level, before that level's lets
+	sp        spice
+	letsFirst bool // every level lets its names before it reads anything (needed under a loop of two iterations that binds names)
 }
 
 func (b *builder) next(prefix string) string {
@@ -135,35 +275,79 @@ func (b *builder) next(prefix string) string {
 	return fmt.Sprintf("%s%d", prefix, b.seq)
 }
 
+const (
+	kFor = iota
+	kFn
+	kPartial
+	kContent
+	kBlock
+	// the widened kinds
+	kForKey       // for (bind, lv) in [val]: the KEY variable is the bound name (value 0)
+	kForMapKey    // for (bind, lv) in {a: val}: the bound name is the key of a map entry
+	kForMapVal    // for (lk, bind) in {a: val}
+	kForIter      // for (bind) in iter(val): an Iterator
+	kForIterKey   // for (bind, lv) in iter(val)
+	kForEmpty     // for (bind) in []: no iteration
+	kForNil       // for (bind) in nil
+	kForTwo       // for (bind) in [val+"a", val+"b"]: two iterations that bind the name
+	kForSilent    // <% for (bind) in [val] { %>...<% } %>: a loop in a silent tag
+	kFnReturn     // function whose body ends in a return statement
+	kFnReturnIf   // function that returns from inside an if block, with dead lets after it
+	kFnTwoParams  // fn(q, bind)
+	kFnTwice      // function defined once and called twice with different arguments
+	kFnRec        // function that calls itself twice deep and probes again after the inner call
+	kPartialVar   // partial whose data value reads a variable of the caller
+	kContentDeflt // contentOf for a name nothing stores: its own block is rendered with the data (twice, second time without)
+	kPartialLay   // partial with data and a layout; the layout lets x, v and k and prints nothing but the partial (again without data and layout)
+	kForCall      // for (bind) in mk(): the iterable comes from a function that lets x and v before it returns it
+	nKinds
+)
+
+var kindNames = []string{"for", "fn", "partial", "contentFor/Of", "block-helper",
+	"for-key", "for-map-key", "for-map-val", "for-iter", "for-iter-key", "for-empty", "for-nil", "for-two", "for-silent",
+	"fn-return", "fn-return-if", "fn-2params", "fn-called-twice", "fn-recursive", "partial-datavar", "contentOf-default-block", "partial-with-layout", "for-over-call"}
+
 // construct wraps body in scope construct kind, binding `bind` (a name from the
 // pool, or "") the way that construct binds names (loop variable / parameter /
-// data key), to the value val.
+// data key), to the value val (for a key variable: to 0 or "a").
 func (b *builder) construct(kind int, bind, val string, body []model.Node) []model.Node {
 	var data []model.KV
 	if bind != "" {
 		data = []model.KV{{K: bind, V: model.Lit{V: val}}}
 	}
-	switch kind {
-	case 0: // for: the loop variable is the bound name
-		lv := bind
-		if lv == "" {
-			lv = b.next("lv")
-		}
-		// the single element is the value, so the loop variable shows val
-		return []model.Node{model.EmitFor{For: &model.For{Val: lv, Iter: model.Arr{Els: []model.Expr{model.Lit{V: val}}}, Body: body}}}
-	case 1: // user function defined and called on the spot; parameter is the bound name
-		fn := b.next("fun")
-		var params []string
-		var args []model.Expr
+	orFresh := func(prefix string) string {
 		if bind != "" {
-			params = []string{bind}
-			args = []model.Expr{model.Lit{V: val}}
+			return bind
 		}
-		return []model.Node{
-			model.Code{S: model.LetS{Name: fn, X: model.FnLit{Params: params, Body: body}}},
-			model.Emit{X: model.Call{Fn: fn, Args: args}},
+		return b.next(prefix)
+	}
+	one := model.Arr{Els: []model.Expr{lit(val)}}
+	hash := model.Hash{KVs: []model.KV{{K: "a", V: lit(val)}}}
+	iter := model.Call{Fn: "iter", Args: []model.Expr{lit(val)}}
+	loop := func(key, v string, it model.Expr) []model.Node {
+		return []model.Node{model.EmitFor{For: &model.For{Key: key, Val: v, Iter: it, Body: body}}}
+	}
+	// fn defines a function (parameters: the bound name, if any, after `before`) and calls it with the given leading arguments
+	fn := func(before []string, lead []model.Expr, body []model.Node) (string, []model.Node) {
+		name := b.next("fun")
+		params := append([]string{}, before...)
+		args := append([]model.Expr{}, lead...)
+		if bind != "" {
+			params = append(params, bind)
+			args = append(args, lit(val))
 		}
-	case 2: // partial with data
+		return name, []model.Node{
+			letx(name, model.FnLit{Params: params, Body: body}),
+			model.Emit{X: model.Call{Fn: name, Args: args}},
+		}
+	}
+	switch kind {
+	case kFor: // the loop variable is the bound name; the single element is the value, so the loop variable shows val
+		return loop("", orFresh("lv"), one)
+	case kFn: // user function defined and called on the spot; parameter is the bound name
+		_, ns := fn(nil, nil, body)
+		return ns
+	case kPartial: // partial with data
 		pn := b.next("part")
 		b.partials[pn] = body
 		if data == nil {
@@ -171,7 +355,7 @@ func (b *builder) construct(kind int, bind, val string, body []model.Node) []mod
 		}
 		// and the partial a second time without data
 		return []model.Node{model.EmitPartial{Name: pn, Data: data}, T("~again:"), model.EmitPartial{Name: pn, Data: []model.KV{}}}
-	case 3: // contentFor + contentOf with data, in the same scope
+	case kContent: // contentFor + contentOf with data, in the same scope
 		cn := b.next("cf")
 		if data == nil {
 			data = []model.KV{}
@@ -180,19 +364,103 @@ func (b *builder) construct(kind int, bind, val string, body []model.Node) []mod
 		// block let-bound while it ran, belongs to that replay only
 		return []model.Node{model.ContentFor{Name: cn, Body: body}, T("~"), model.EmitContentOf{Name: cn, Data: data},
 			T("~again:"), model.EmitContentOf{Name: cn, Data: []model.KV{}}}
-	default: // block helper rendering its block on a fresh child context
+	case kBlock: // block helper rendering its block on a fresh child context
 		if bind == "" {
 			return []model.Node{model.EmitBlock{Helper: "blk", Body: body}}
 		}
 		return []model.Node{model.EmitBlock{Helper: "blkd", Data: data, Body: body}}
+
+	case kForKey:
+		return loop(orFresh("lk"), b.next("lv"), one)
+	case kForMapKey:
+		return loop(orFresh("lk"), b.next("lv"), hash)
+	case kForMapVal:
+		return loop(b.next("lk"), orFresh("lv"), hash)
+	case kForIter:
+		return loop("", orFresh("lv"), iter)
+	case kForIterKey:
+		return loop(orFresh("lk"), b.next("lv"), iter)
+	case kForEmpty:
+		return loop("", orFresh("lv"), model.Arr{})
+	case kForNil:
+		return loop("", orFresh("lv"), lit(nil))
+	case kForTwo:
+		return loop("", orFresh("lv"), model.Arr{Els: []model.Expr{lit(val + "a"), lit(val + "b")}})
+	case kForSilent:
+		return []model.Node{model.Code{S: model.ForS{For: &model.For{Val: orFresh("lv"), Iter: one, Body: body}}}}
+	case kFnReturn:
+		_, ns := fn(nil, nil, append(append([]model.Node{}, body...), model.Code{S: model.ReturnS{X: lit("R" + val)}}))
+		return ns
+	case kFnReturnIf:
+		_, ns := fn(nil, nil, append(append([]model.Node{}, body...),
+			model.Code{S: model.IfS{If: &model.If{Cond: model.Var{Name: "g"}, Then: []model.Node{model.Code{S: model.ReturnS{X: lit("R" + val)}}}}}},
+			let("x", "dead"), let("v", "dead"), T("dead")))
+		return ns
+	case kFnTwoParams:
+		_, ns := fn([]string{b.next("q")}, []model.Expr{lit("q")}, body)
+		return ns
+	case kFnTwice:
+		name, ns := fn(nil, nil, body)
+		var args []model.Expr
+		if bind != "" {
+			args = []model.Expr{lit(val + "2")}
+		}
+		return append(ns, T("~again:"), model.Emit{X: model.Call{Fn: name, Args: args}})
+	case kFnRec:
+		name, n := b.next("fun"), b.next("n")
+		params, args, inner := []string{n}, []model.Expr{lit(2)}, []model.Expr{model.Bin{Op: "-", L: model.Var{Name: n}, R: lit(1)}}
+		if bind != "" {
+			params, args = append(params, bind), append(args, lit(val))
+			inner = append(inner, model.Bin{Op: "+", L: model.Var{Name: bind}, R: lit("r")})
+		}
+		rec := append(append([]model.Node{}, body...),
+			model.EmitIf{If: &model.If{Cond: model.Bin{Op: ">", L: model.Var{Name: n}, R: lit(0)},
+				Then: []model.Node{T("{rec:"), model.Emit{X: model.Call{Fn: name, Args: inner}}, T("}")}}})
+		// after the inner call every name, the counter included, is what it was before it
+		rec = append(rec, probes(append(append([]string{}, allNames...), n)...)...)
+		return []model.Node{letx(name, model.FnLit{Params: params, Body: rec}), model.Emit{X: model.Call{Fn: name, Args: args}}}
+	case kPartialVar:
+		pn := b.next("part")
+		b.partials[pn] = body
+		d := []model.KV{}
+		if bind != "" {
+			d = []model.KV{{K: bind, V: model.Bin{Op: "+", L: model.Var{Name: "g"}, R: lit(val)}}}
+		}
+		return []model.Node{model.EmitPartial{Name: pn, Data: d}}
+	case kForCall:
+		mk := b.next("mk")
+		return append([]model.Node{letx(mk, model.FnLit{Body: []model.Node{let("x", "mk-x"), let("v", "mk-v"), code(model.ReturnS{X: one})}})},
+			loop("", orFresh("lv"), model.Call{Fn: mk})...)
+	case kPartialLay:
+		pn, ln := b.next("part"), b.next("lay")
+		b.partials[pn] = body
+		b.partials[ln] = []model.Node{let("x", "lay"), let("v", "lay"), let("k", "lay"), model.Emit{X: model.Var{Name: "yield"}}}
+		d := append([]model.KV{{K: "layout", V: lit(ln)}}, data...)
+		return []model.Node{model.EmitPartial{Name: pn, Data: d}, T("~again:"), model.EmitPartial{Name: pn, Data: []model.KV{}}}
+	case kContentDeflt:
+		return []model.Node{model.EmitBlock{Helper: "cofb", Data: data, Body: body}, T("~again:"), model.EmitBlock{Helper: "cofb", Body: body}}
 	}
+	panic("unknown kind")
 }
 
-var kindNames = []string{"for", "fn", "partial", "contentFor/Of", "block-helper"}
+// prelet makes a body fit for a loop of several iterations: every name the body lets at its own level is let at
+// its start, so that no iteration reads what an earlier iteration bound (which the statements leave open).
+func prelet(body []model.Node) []model.Node {
+	var pre []model.Node
+	seen := map[string]bool{}
+	for _, n := range body {
+		if c, ok := n.(model.Code); ok {
+			if l, ok := c.S.(model.LetS); ok && !seen[l.Name] {
+				if _, isFn := l.X.(model.FnLit); !isFn {
+					seen[l.Name] = true
+					pre = append(pre, let(l.Name, "pre-"+l.Name))
+				}
+			}
+		}
+	}
+	return append(pre, body...)
+}
 
-// nest builds a fixed pattern: at every level shadow x, add a fresh name,
-// bind one pool name through the construct, and probe everything before,
-// inside and after.
 // twice wraps nodes in a loop of two iterations that binds nothing of its own
 // except a unique loop variable: whatever construct is inside is ENTERED TWICE
 // under the same enclosing scope, and must start from scratch the second time.
@@ -200,24 +468,61 @@ func (b *builder) twice(ns []model.Node) []model.Node {
 	return []model.Node{T("{2x:"), model.EmitFor{For: &model.For{Val: b.next("rep"), Iter: model.Var{Name: "two"}, Body: ns}}, T("}")}
 }
 
+// hfDef is the function of spOuterFn. Its body lets x and k BEFORE it reads them and reads nothing else but its
+// parameter, so it means the same whether free names of a function resolve where it was defined or where it is called.
+func hfDef() model.Node {
+	return letx("hf", model.FnLit{Params: []string{"hp"}, Body: append([]model.Node{T("(hf:"), let("x", "hfx"), let("k", "hfk")},
+		append(probes("x", "k", "hp"), T(")"))...)})
+}
+
+func hfCall(arg string) model.Node {
+	return model.Emit{X: model.Call{Fn: "hf", Args: []model.Expr{lit(arg)}}}
+}
+
+// nest builds a fixed pattern: at every level shadow x, add a fresh name,
+// bind one pool name through the construct, and probe everything before,
+// inside and after.
 func (b *builder) nest(kinds []int, level int, binds []string) []model.Node {
-	all := append(append([]string{}, names...), "g")
 	lv := fmt.Sprintf("L%d", level)
 	var out []model.Node
 	out = append(out, T(fmt.Sprintf("<%d:", level)))
 	if b.replay && level == 0 {
 		out = append(out, model.ContentFor{Name: "topblock", Body: []model.Node{T("(stored)")}})
 	}
-	out = append(out, probes(all...)...)
+	if b.sp&spOuterFn != 0 && level == 0 {
+		out = append(out, hfDef())
+	}
+	if !b.letsFirst {
+		out = append(out, probes(allNames...)...)
+	}
 	if b.replay && level > 0 {
 		// replaying a block stored in an OUTER scope must not disturb where this scope's later bindings go
 		out = append(out, model.EmitContentOf{Name: "topblock", Data: []model.KV{}})
 	}
-	out = append(out, let("x", "x"+lv)) // shadows / rebinds x at this level
+	// shadows / rebinds x at this level
+	if b.sp&spChain != 0 && level > 0 && !b.letsFirst {
+		out = append(out, chain("x", "~"+lv))
+	} else {
+		out = append(out, let("x", "x"+lv))
+	}
+	if b.sp&spAssign != 0 {
+		out = append(out, model.Code{S: model.AssignS{Name: "x", X: lit("x" + lv + "!")}})
+	}
 	if level%2 == 1 {
 		out = append(out, let("y", "y"+lv))
 	}
-	out = append(out, probe("x"), probe("y"))
+	if b.letsFirst {
+		out = append(out, probes(allNames...)...)
+	} else {
+		out = append(out, probe("x"), probe("y"))
+	}
+	if b.sp&spOuterFn != 0 {
+		out = append(out, hfCall("a"+lv), probe("x"), probe("k"), probe("hp"))
+	}
+	if b.sp&spIfLet != 0 && level > 0 {
+		q := fmt.Sprintf("q%d", level)
+		out = append(out, model.EmitIf{If: &model.If{Cond: model.Var{Name: "g"}, Then: []model.Node{let(q, q+"in"), probe(q)}}})
+	}
 	if len(kinds) > 0 {
 		inner := b.nest(kinds[1:], level+1, binds[1:])
 		cons := b.construct(kinds[0], binds[0], binds[0]+"@"+lv, inner)
@@ -226,45 +531,316 @@ func (b *builder) nest(kinds []int, level int, binds []string) []model.Node {
 		}
 		out = append(out, cons...)
 		out = append(out, T("|after:"))
-		out = append(out, probes(all...)...)
+		out = append(out, probes(allNames...)...)
+		if b.sp&spIfLet != 0 {
+			out = append(out, probe(fmt.Sprintf("q%d", level+1)))
+		}
+		if b.sp&spOuterFn != 0 {
+			out = append(out, hfCall("z"+lv), probe("x"), probe("k"))
+		}
 	}
 	out = append(out, T(">"))
 	return out
 }
 
+func kindLabel(kinds []int, repeat map[int]bool) string {
+	var kn []string
+	for l, k := range kinds {
+		n := kindNames[k]
+		if repeat[l] {
+			n += "x2"
+		}
+		kn = append(kn, n)
+	}
+	return strings.Join(kn, ">")
+}
+
+// nestCase builds and runs one cell of the exhaustive matrices.
+func nestCase(r *vk.Run, kinds []int, pat []string, mask int, replay bool, sp spice, class string, again bool) *vk.Fail {
+	b := &builder{partials: map[string][]model.Node{}, repeat: map[int]bool{}, replay: replay, sp: sp}
+	for l, k := range kinds {
+		b.repeat[l] = mask&(1<<l) != 0
+		if k == kForTwo {
+			b.letsFirst = true
+		}
+		if pat[l] == "x" && (k == kForKey || k == kForIterKey) {
+			b.sp &^= spChain // x is then a number inside
+		}
+	}
+	prog := b.nest(kinds, 0, pat[:len(kinds)])
+	return run(r, prog, b.partials, class+"/"+kindLabel(kinds, b.repeat), opts{bare: b.sp&spBare != 0, again: again})
+}
+
+// ---- failing function as a condition ----------------------------------------------------------
+
+var forms = []string{"f()", "!f()", "f() == nil", "f() != nil"}
+
+// forgiven builds the program and its written-out twin: a function (parameter bind, if any) whose body lets x and y,
+// and then reads an unknown identifier - directly or inside construct `wrap` - is called as the condition `form`;
+// host says where the if stands (0 top level, 1 in a for body, 2 in a function body, 3 in a loop of two iterations).
+func forgiven(form, wrap, host int, bind string) (prog, alt []model.Node, partials map[string][]model.Node) {
+	build := func(written bool) ([]model.Node, map[string][]model.Node) {
+		b := &builder{partials: map[string][]model.Node{}}
+		failing := []model.Node{let("v", "deep"), T("(before)"), model.Emit{X: model.Var{Name: "unk"}}, T("(after)"), let("k", "late")}
+		if wrap >= 0 {
+			failing = b.construct(wrap, "p", "P-in", failing)
+		}
+		body := append([]model.Node{let("x", "x-in"), let("y", "y-in")}, probes(allNames...)...)
+		body = append(body, failing...)
+		body = append(body, let("y", "y-late"))
+		var params []string
+		var args []model.Expr
+		if bind != "" {
+			params, args = []string{bind}, []model.Expr{lit(bind + "-arg")}
+		}
+		var call model.Expr = model.Call{Fn: "ff", Args: args}
+		var cond model.Expr
+		switch form {
+		case 0:
+			cond = call
+		case 1:
+			cond = model.Not{X: call}
+		case 2:
+			cond = model.Bin{Op: "==", L: call, R: lit(nil)}
+		default:
+			cond = model.Bin{Op: "!=", L: call, R: lit(nil)}
+		}
+		if written {
+			cond = lit(form == 1 || form == 2) // the failed call counts as nil
+		}
+		test := []model.Node{model.EmitIf{If: &model.If{Cond: cond, Then: []model.Node{T("[then]")}, HasElse: true, Else: []model.Node{T("[else]")}}}}
+		test = append(test, T("|after:"))
+		test = append(test, probes(allNames...)...)
+		var hosted []model.Node
+		switch host {
+		case 0:
+			hosted = test
+		case 1:
+			hosted = b.construct(kFor, "v", "v-host", append(append([]model.Node{let("y", "y-host")}, test...), let("p", "p-host")))
+		case 2:
+			hosted = b.construct(kFn, "v", "v-host", append(append([]model.Node{let("y", "y-host")}, test...), let("p", "p-host")))
+		default:
+			hosted = b.twice(test)
+		}
+		out := []model.Node{let("x", "X0"), letx("ff", model.FnLit{Params: params, Body: body})}
+		out = append(out, hosted...)
+		out = append(out, T("|end:"))
+		out = append(out, probes(allNames...)...)
+		return out, b.partials
+	}
+	prog, partials = build(false)
+	alt, _ = build(true)
+	return
+}
+
+// ---- silent constructs with bodies the statements leave open -------------------------------------
+
+func code(s model.Stmt) model.Node { return model.Code{S: s} }
+
+func vr(n string) model.Expr { return model.Var{Name: n} }
+
+func forIn(key, val string, it model.Expr, body ...model.Node) model.Node {
+	return model.EmitFor{For: &model.For{Key: key, Val: val, Iter: it, Body: body}}
+}
+
+func silentIf(cond model.Expr, then ...model.Node) model.Node {
+	return code(model.IfS{If: &model.If{Cond: cond, Then: then}})
+}
+
+type wildBody struct {
+	name   string
+	fnOnly bool // has a return statement: only as a function body
+	body   func(b *builder) []model.Node
+}
+
+// what these bodies print or return is not fixed by the statements (return inside a loop, names an earlier iteration
+// bound, text in a silent if that ends in continue); that nothing they bind outlives them is
+var wild = []wildBody{
+	{"return inside a loop", true, func(b *builder) []model.Node {
+		return []model.Node{let("x", "w-x"), forIn("", "v", vr("two"), let("y", "w-y"), code(model.ReturnS{X: vr("v")}), let("k", "dead")), let("p", "w-late")}
+	}},
+	{"reads what the last iteration bound", false, func(b *builder) []model.Node {
+		return []model.Node{forIn("", "v", vr("two"), probe("x"), probe("y"), let("x", "w-x"), let("y", "w-y"), probe("x"))}
+	}},
+	{"continue and break inside ifs", false, func(b *builder) []model.Node {
+		return []model.Node{forIn("k", "v", vr("two"), let("x", "w-x"),
+			silentIf(model.Bin{Op: "==", L: vr("k"), R: lit(0)}, let("p", "w-p"), T("text"), code(model.ContinueS{})),
+			let("y", "w-y"), code(model.BreakS{}), let("v", "dead")), let("k", "w-k")}
+	}},
+	{"break first", false, func(b *builder) []model.Node {
+		return []model.Node{let("v", "w-v"), forIn("", "p", vr("two"), let("x", "w-x"), code(model.BreakS{}), let("y", "dead")), let("k", "w-k")}
+	}},
+	{"return from a nested if", true, func(b *builder) []model.Node {
+		return []model.Node{let("x", "w-x"), silentIf(vr("g"), let("y", "w-y"), silentIf(vr("g"), code(model.ReturnS{X: lit("r")}))), let("k", "dead")}
+	}},
+	{"loop in a loop, the inner one returns", true, func(b *builder) []model.Node {
+		return []model.Node{forIn("", "v", vr("two"), let("x", "w-x"),
+			forIn("", "p", vr("two"), let("y", "w-y"), code(model.ReturnS{X: vr("p")})), let("k", "w-k"))}
+	}},
+	{"calls a function that returns from a loop", false, func(b *builder) []model.Node {
+		wf := b.next("wf")
+		return []model.Node{letx(wf, model.FnLit{Params: []string{"v"}, Body: []model.Node{
+			forIn("", "k", vr("two"), let("x", "wf-x"), code(model.ReturnS{X: vr("k")}))}}),
+			letx("y", model.Call{Fn: wf, Args: []model.Expr{lit("a")}}), let("x", "w-x"), model.Emit{X: model.Call{Fn: wf, Args: []model.Expr{lit("b")}}}}
+	}},
+	{"shadowing let reading what the last iteration bound", false, func(b *builder) []model.Node {
+		return []model.Node{forIn("", "v", vr("two"), chain("x", "'"), probe("x"), let("p", "w-p"))}
+	}},
+	{"stored block defined and used in every iteration", false, func(b *builder) []model.Node {
+		return []model.Node{forIn("", "v", vr("two"), append(b.construct(kContent, "k", "w-k", []model.Node{let("x", "w-x"), probe("x"), probe("y")}), let("y", "w-y"))...)}
+	}},
+	{"loops that never run", false, func(b *builder) []model.Node {
+		return []model.Node{forIn("", "x", model.Arr{}, let("y", "dead")), forIn("p", "y", lit(nil), let("x", "dead")), let("v", "w-v")}
+	}},
+}
+
+var silentForms = []string{"<% let r = f(..) %>", "<% f(..) %>", "<% for (..) in [one] { %>..<% } %>", "<% for (..) in [a, b] { %>..<% } %>"}
+
+// erasure builds a program with one silent construct (form) around wild body w, binding bind, at host (0 top level,
+// 1 in a for body, 2 in a function body, 3 in a loop of two iterations) - and the same program without it.
+func erasure(w, form, host int, bind string) (prog, alt []model.Node, partials map[string][]model.Node) {
+	build := func(erased bool) ([]model.Node, map[string][]model.Node) {
+		b := &builder{partials: map[string][]model.Node{}}
+		var silent []model.Node
+		if !erased {
+			body := wild[w].body(b)
+			switch form {
+			case 0, 1:
+				name := b.next("fun")
+				var params []string
+				var args []model.Expr
+				if bind != "" {
+					params, args = []string{bind}, []model.Expr{lit(bind + "-arg")}
+				}
+				call := model.Call{Fn: name, Args: args}
+				silent = []model.Node{letx(name, model.FnLit{Params: params, Body: body})}
+				if form == 0 {
+					silent = append(silent, letx("r", call))
+				} else {
+					silent = append(silent, code(model.ExprS{X: call}))
+				}
+			default:
+				lv := bind
+				if lv == "" {
+					lv = b.next("lv")
+				}
+				var it model.Expr = model.Arr{Els: []model.Expr{lit(bind + "-el")}}
+				if form == 3 {
+					it = model.Arr{Els: []model.Expr{lit(bind + "-a"), lit(bind + "-b")}}
+				}
+				silent = []model.Node{code(model.ForS{For: &model.For{Val: lv, Iter: it, Body: body}})}
+			}
+		}
+		test := append(probes(allNames...), silent...)
+		test = append(test, T("|after:"))
+		test = append(test, probes(allNames...)...)
+		var hosted []model.Node
+		switch host {
+		case 0:
+			hosted = test
+		case 1:
+			hosted = b.construct(kFor, "v", "v-host", append(append([]model.Node{let("y", "y-host")}, test...), let("p", "p-host")))
+		case 2:
+			hosted = b.construct(kFn, "v", "v-host", append(append([]model.Node{let("y", "y-host")}, test...), let("p", "p-host")))
+		default:
+			hosted = b.twice(test)
+		}
+		out := append([]model.Node{let("x", "X0"), let("k", "K0")}, hosted...)
+		out = append(out, T("|end:"))
+		out = append(out, probes(allNames...)...)
+		return out, b.partials
+	}
+	prog, partials = build(false)
+	alt, _ = build(true)
+	return
+}
+
 // ---- random generator ---------------------------------------------------------------------
 
 type rgen struct {
-	t      *rapid.T
-	b      *builder
-	n      int
-	replay bool
+	t       *rapid.T
+	b       *builder
+	n       int
+	replay  bool
+	outerFn bool
+	qnames  []string // names let inside an if block inside some construct: read at the very end
 }
 
-func (g *rgen) nodes(depth int) []model.Node {
+func sorted(m map[string]bool) []string {
+	var out []string
+	for k, v := range m {
+		if v {
+			out = append(out, k)
+		}
+	}
+	sort.Strings(out)
+	return out
+}
+
+// nodes draws a block. vis: pool names known to hold a string here; top: the block is the template itself.
+func (g *rgen) nodes(depth int, vis map[string]bool, top bool) []model.Node {
 	t := g.t
 	var out []model.Node
+	local := map[string]bool{}
 	cnt := rapid.IntRange(1, 5).Draw(t, "cnt")
 	for i := 0; i < cnt; i++ {
-		switch k := rapid.IntRange(0, 9).Draw(t, "k"); {
+		switch k := rapid.IntRange(0, 15).Draw(t, "k"); {
 		case k <= 2:
-			out = append(out, probe(rapid.SampledFrom(append(names, "g")).Draw(t, "pn")))
+			out = append(out, probe(rapid.SampledFrom(allNames).Draw(t, "pn")))
 		case k <= 5:
 			g.n++
-			out = append(out, let(rapid.SampledFrom(names).Draw(t, "ln"), fmt.Sprintf("V%d", g.n)))
+			n := rapid.SampledFrom(names).Draw(t, "ln")
+			out = append(out, let(n, fmt.Sprintf("V%d", g.n)))
+			vis[n], local[n] = true, true
 		case k == 6:
 			if g.replay {
 				out = append(out, model.EmitContentOf{Name: "topblock", Data: []model.KV{}})
 			} else {
 				out = append(out, T("."))
 			}
+		case k == 7: // a shadowing let that reads what it shadows
+			if vs := sorted(vis); len(vs) > 0 {
+				g.n++
+				n := rapid.SampledFrom(vs).Draw(t, "cn")
+				out = append(out, chain(n, fmt.Sprintf("~%d", g.n)))
+				local[n] = true
+			}
+		case k == 8: // bare assignment to a name let-bound in this very block
+			if ls := sorted(local); len(ls) > 0 {
+				g.n++
+				n := rapid.SampledFrom(ls).Draw(t, "an")
+				out = append(out, model.Code{S: model.AssignS{Name: n, X: lit(fmt.Sprintf("A%d", g.n))}})
+			}
+		case k == 9: // a let inside an if block; the name is unique and is read again only at the very end
+			g.n++
+			q := fmt.Sprintf("q%d", g.n)
+			out = append(out, model.EmitIf{If: &model.If{Cond: model.Var{Name: "g"}, Then: []model.Node{let(q, "Q"), probe(q)}}})
+			if !top {
+				g.qnames = append(g.qnames, q)
+			}
+		case k == 10:
+			if g.outerFn {
+				g.n++
+				out = append(out, hfCall(fmt.Sprintf("h%d", g.n)))
+			}
 		default:
 			if depth > 0 {
 				g.n++
 				bind := rapid.SampledFrom(append([]string{""}, names...)).Draw(t, "bind")
-				kind := rapid.IntRange(0, 4).Draw(t, "kind")
+				kind := rapid.IntRange(0, nKinds-1).Draw(t, "kind")
+				inner := map[string]bool{}
+				for n, v := range vis {
+					inner[n] = v
+				}
+				if bind != "" {
+					inner[bind] = kind != kForKey && kind != kForIterKey
+				}
+				body := g.nodes(depth-1, inner, false)
+				if kind == kForTwo {
+					body = prelet(body)
+				}
 				out = append(out, T("("))
-				cons := g.b.construct(kind, bind, fmt.Sprintf("B%d", g.n), g.nodes(depth-1))
+				cons := g.b.construct(kind, bind, fmt.Sprintf("B%d", g.n), body)
 				if rapid.IntRange(0, 2).Draw(t, "twice") == 0 {
 					cons = g.b.twice(cons)
 				}
@@ -274,48 +850,90 @@ func (g *rgen) nodes(depth int) []model.Node {
 		}
 	}
 	// always end a block by probing every name
-	out = append(out, probes(append(append([]string{}, names...), "g")...)...)
+	out = append(out, probes(allNames...)...)
 	return out
 }
 
-const rule = "scope constructs {for, user function defined and called on the spot, partial with data, contentFor + contentOf with data in one scope (the stored block, and likewise the partial, is used a second time WITHOUT data: nothing the first use was given or let-bound may be visible), block helper rendering its block with BlockWith on a fresh child context}; names {x, y, v, p, k} bound by let (fresh and shadowing), and through the construct itself (loop variable / parameter / data key equal to a name that is let-bound outside); probes <%= if (n) { %>[n=<%= n %>]<% } else { %>[n=-]<% } %> for every name before, inside and after each construct. (E) every nesting of 1, 2 and 3 constructs (5 + 25 + 125) x 4 binding patterns x every subset of levels whose construct is ENTERED TWICE (wrapped in a two-iteration loop that binds nothing else), with a fixed let/probe pattern at every level; in half of them a block of literal text stored at top level is replayed with contentOf inside every deeper scope before that scope's lets; (R) random let/probe/construct sequences nested to depth 3. Oracle: environment-chain reference interpreter (each construct is a child scope; lets and bound names vanish when it ends; outer names stay readable and unchanged; top-level let persists). Non-trivial: every case nests at least one construct (distinct by template + partial texts)."
+const rule = "scope constructs {for, user function defined and called on the spot, partial with data, contentFor + contentOf with data in one scope (the stored block, and likewise the partial, is used a second time WITHOUT data: nothing the first use was given or let-bound may be visible), block helper rendering its block with BlockWith on a fresh child context} and 18 further kinds of them {for binding the name as its KEY variable; for over a hash literal binding the name as key / as value; for over an Iterator, name as value / as key; for over [] and over nil (no iteration); for of TWO iterations binding the name; for in a silent tag; function ending in return; function returning from inside an if with dead lets after it; function of two parameters; function defined once and CALLED TWICE with other arguments; function that calls itself two deep and probes every name again after the inner call; partial whose data value reads a variable of the caller; contentOf for a name nothing stores, rendering its own default block with the data, and again without; partial with data and a layout that lets x, v, k and prints only the partial; for over the result of a function that lets x and v before it returns the collection}; names {x, y, v, p, k} bound by let (fresh and shadowing), and through the construct itself (loop variable / key variable / parameter / data key equal to a name that is let-bound outside); g and len come from the data only (len is also the name of a default helper and must stay the data's value in every scope); probes <%= if (n) { %>[n=<%= n %>]<% } else { %>[n=-]<% } %> for every name before, inside and after each construct. Spices on the fixed pattern: a function defined once at top level and called at every level (it lets x and k before reading them, so definition-site and call-site resolution agree); bare assignment to a name let-bound in the same scope; shadowing lets that read what they shadow (let x = x + \"~L1\"); a let inside an if block inside the scope, read after the scope ended; partial(\"n\") / contentOf(\"n\") spelled without data. (E1) every nesting of 1, 2 and 3 of the five basic constructs (5 + 25 + 125) x 4 binding patterns x every subset of levels whose construct is ENTERED TWICE (wrapped in a two-iteration loop that binds nothing else), with a fixed let/probe pattern at every level; in half of them a block of literal text stored at top level is replayed with contentOf inside every deeper scope before that scope's lets; (E2) each of the 18 further kinds alone, inside and around each basic construct, x 4 binding patterns x every subset of levels entered twice; (E3) each spice alone and all together x every nesting of 1 and 2 of all 23 kinds x 4 binding patterns; (F) a function that lets x and y and then fails on an unknown identifier - directly or inside any of the 21 constructs that run their body - called as the condition f() / !f() / f() == nil / f() != nil, at top level, in a for body, in a function body and in a loop of two iterations: the statements do not say whether that failure is tolerated, so the render may fail, and IF it succeeds its output must be that of the program with the condition written out as the literal a nil call gives; (R) random let/probe/construct sequences nested to depth 3 over all 23 kinds with the spices as further statements; (S) ten bodies whose own meaning the statements leave open (return inside a loop, in a nested loop, from a nested if; reading or shadowing what the last iteration bound; continue and break inside silent ifs, also after text; a function that returns from a loop, called twice; a block stored and used in every iteration; loops that never run) inside a SILENT construct - <% let r = f(..) %>, <% f(..) %>, a silent for of one and of two iterations - at top level, in a for body, in a function body and in a loop of two iterations: the render may fail, and IF it succeeds its output must be that of the program without the silent construct. In every phase a quarter of the cases parse their template once and execute it twice on fresh contexts; both executions must agree. Oracle: environment-chain reference interpreter (each construct is a child scope; lets and bound names vanish when it ends; outer names stay readable and unchanged; top-level let persists). Non-trivial: every case nests at least one construct (distinct by template + partial texts)."
+
+func decodeCase(raw json.RawMessage) (c Case, prog []model.Node, parts map[string][]model.Node, alt []model.Node, f *vk.Fail) {
+	if f = vk.Decode(raw, &c); f != nil {
+		return
+	}
+	bad := func(err error) *vk.Fail { return &vk.Fail{Kind: "decode", Msg: err.Error()} }
+	prog, err := model.Decode(c.Prog)
+	if err != nil {
+		f = bad(err)
+		return
+	}
+	parts = map[string][]model.Node{}
+	for n, raw := range c.Partials {
+		body, err := model.Decode(raw)
+		if err != nil {
+			f = bad(err)
+			return
+		}
+		parts[n] = body
+	}
+	if c.Alt != nil {
+		if alt, err = model.Decode(c.Alt); err != nil {
+			f = bad(err)
+		}
+	}
+	return
+}
 
 func setup(t *testing.T) *vk.Run {
 	r := vk.Start(t, "C09", rule,
-		"loops that bind names run a single iteration; constructs are re-entered through a two-iteration wrapper loop that lets nothing itself; reading a name let-bound in an earlier iteration of the same loop is Unspecified in the model",
-		"functions are defined immediately before their call, so lexical and dynamic resolution of free names agree; contentFor and contentOf are used in the same scope",
-		"if blocks and plain Block() helpers are not scopes and are not used as such; bare assignment inside a scope is not used")
+		"loops that bind names run a single iteration, except the two-iteration kind, whose bodies let every name before reading it; constructs are re-entered through a two-iteration wrapper loop that lets nothing itself; reading a name let-bound in an earlier iteration of the same loop is Unspecified in the model",
+		"functions are defined immediately before their call, so lexical and dynamic resolution of free names agree; the one function defined at top level and called from inner scopes reads only what it has bound itself; contentFor and contentOf are used in the same scope",
+		"if blocks and plain Block() helpers are not scopes and are not used as such: a name let inside an if block is read inside that block and after the enclosing construct has ended, never in between; bare assignment is only used on names let-bound in the same scope",
+		"a failing function called as a condition: both a failed render and a render that goes on as if the call gave nil are accepted")
 	r.Replayer("scope", func(raw json.RawMessage) *vk.Fail {
-		var c Case
-		if f := vk.Decode(raw, &c); f != nil {
+		c, prog, parts, _, f := decodeCase(raw)
+		if f != nil {
 			return f
 		}
-		prog, err := model.Decode(c.Prog)
-		if err != nil {
-			return &vk.Fail{Kind: "decode", Msg: err.Error()}
+		return run(r, prog, parts, "replay", opts{bare: c.Bare, again: c.Again})
+	})
+	r.Replayer("alt", func(raw json.RawMessage) *vk.Fail {
+		c, prog, parts, alt, f := decodeCase(raw)
+		if f != nil {
+			return f
 		}
-		parts := map[string][]model.Node{}
-		for n, raw := range c.Partials {
-			body, err := model.Decode(raw)
-			if err != nil {
-				return &vk.Fail{Kind: "decode", Msg: err.Error()}
-			}
-			parts[n] = body
+		if alt == nil {
+			return &vk.Fail{Kind: "decode", Msg: "an alt case without alt"}
 		}
-		return run(r, prog, parts, "replay")
+		return run(r, prog, parts, "replay", opts{bare: c.Bare, again: c.Again, alt: alt, why: "alternative program"})
 	})
 	return r
 }
 
 func TestReplay(t *testing.T) { setup(t).ReplayEnv() }
 
+var patterns = [][]string{{"v", "p", "k"}, {"x", "x", "x"}, {"", "y", ""}, {"k", "k", "v"}}
+
 func TestProp(t *testing.T) {
 	r := setup(t)
 	defer r.Finish()
 	r.ReplayCommitted()
 
-	patterns := [][]string{{"v", "p", "k"}, {"x", "x", "x"}, {"", "y", ""}, {"k", "k", "v"}}
-	var cells int64
+	// every exhaustive phase collects its cells and runs them on all cores
+	var cells []func() *vk.Fail
+	flush := func(name string, exhaustive bool) {
+		cs := cells
+		r.Parallel(int64(len(cs)), 0, func(i int64) { r.Check(cs[i]()) })
+		r.Subspace(name, int64(len(cs)), exhaustive)
+		cells = nil
+	}
+	// every fourth cell parses its template once and executes it twice
+	again := func() bool { return len(cells)%4 == 3 }
+	nestCell := func(kinds []int, pat []string, mask int, replay bool, sp spice, class string) {
+		kinds, ag := append([]int{}, kinds...), again()
+		cells = append(cells, func() *vk.Fail { return nestCase(r, kinds, pat, mask, replay, sp, class, ag) })
+	}
+
+	// E1
 	for depth := 1; depth <= 3; depth++ {
 		total := 1
 		for i := 0; i < depth; i++ {
@@ -336,36 +954,106 @@ func TestProp(t *testing.T) {
 					if r.Quick() && depth == 3 && mask != 0 && mask != 2 && mask != 7 {
 						continue
 					}
-					if r.Mine(cells) {
-						b := &builder{partials: map[string][]model.Node{}, repeat: map[int]bool{}, replay: (code+mask)%2 == 1}
-						for l := 0; l < depth; l++ {
-							b.repeat[l] = mask&(1<<l) != 0
-						}
-						prog := b.nest(kinds, 0, pat[:depth])
-						var kn []string
-						for l, k := range kinds {
-							n := kindNames[k]
-							if b.repeat[l] {
-								n += "x2"
-							}
-							kn = append(kn, n)
-						}
-						r.Check(run(r, prog, b.partials, "nest/"+strings.Join(kn, ">")))
-					}
-					cells++
+					nestCell(kinds, pat, mask, (code+mask)%2 == 1, 0, "nest")
 				}
 			}
 		}
 	}
-	r.Subspace("every nesting of 1..3 scope constructs (5+25+125) x 4 binding patterns x every subset of levels entered twice (quick: half of depth 3, 3 of 8 subsets there)", cells, !r.Quick())
+	flush("every nesting of 1..3 basic scope constructs (5+25+125) x 4 binding patterns x every subset of levels entered twice (quick: half of depth 3, 3 of 8 subsets there)", !r.Quick())
+
+	// E2: the further kinds alone, inside and around every basic construct
+	for k2 := kForKey; k2 < nKinds; k2++ {
+		nestings := [][]int{{k2}}
+		for k := 0; k < 5; k++ {
+			nestings = append(nestings, []int{k, k2}, []int{k2, k})
+		}
+		for ni, kinds := range nestings {
+			for pi, pat := range patterns {
+				for mask := 0; mask < 1<<len(kinds); mask++ {
+					nestCell(kinds, pat, mask, (ni+pi+mask)%2 == 1, 0, "variant")
+				}
+			}
+		}
+	}
+	flush("each of the 18 further kinds alone, inside and around each of the 5 basic constructs x 4 binding patterns x every subset of levels entered twice", true)
+
+	// E3: the spices
+	for _, sp := range []spice{spOuterFn, spAssign, spChain, spIfLet, spBare, spAll} {
+		for a := 0; a < nKinds; a++ {
+			for b := -1; b < nKinds; b++ {
+				kinds := []int{a}
+				if b >= 0 {
+					kinds = append(kinds, b)
+				}
+				for pi, pat := range patterns {
+					if r.Quick() && b >= 0 && (a+b+pi)%8 != 0 {
+						continue
+					}
+					nestCell(kinds, pat, (a+pi)%2*(1<<(len(kinds)-1)), (a+b+pi)%3 == 0, sp, "spice:"+sp.String())
+				}
+			}
+		}
+	}
+	flush("5 spices singly and all together x every nesting of 1 and 2 of the 23 kinds x 4 binding patterns (quick: an eighth of the depth-2 cells)", !r.Quick())
+
+	// F: a failing function as a condition
+	for form := range forms {
+		for wrap := -1; wrap < nKinds; wrap++ {
+			if wrap == kForEmpty || wrap == kForNil {
+				continue // the failing read would never run
+			}
+			for host := 0; host < 4; host++ {
+				for _, bind := range []string{"", "x", "p"} {
+					form, wrap, host, bind, ag := form, wrap, host, bind, again()
+					cells = append(cells, func() *vk.Fail {
+						prog, alt, parts := forgiven(form, wrap, host, bind)
+						w := "direct"
+						if wrap >= 0 {
+							w = "in " + kindNames[wrap]
+						}
+						return run(r, prog, parts, "forgiven/"+forms[form]+"/"+w, opts{alt: alt, again: ag, why: "program with the condition written out as the literal a nil call gives"})
+					})
+				}
+			}
+		}
+	}
+	flush("failing function as a condition: 4 forms x failing read direct or inside each of the 21 kinds that run their body x 4 hosts x 3 parameter names", true)
+
+	// S: silent constructs around bodies the statements leave open
+	for w := range wild {
+		for form := range silentForms {
+			if wild[w].fnOnly && form >= 2 {
+				continue
+			}
+			for host := 0; host < 4; host++ {
+				for _, bind := range []string{"", "x", "p"} {
+					w, form, host, bind, ag := w, form, host, bind, again()
+					cells = append(cells, func() *vk.Fail {
+						prog, alt, parts := erasure(w, form, host, bind)
+						return run(r, prog, parts, "silent/"+silentForms[form]+"/"+wild[w].name, opts{alt: alt, again: ag, why: "program without the silent construct"})
+					})
+				}
+			}
+		}
+	}
+	flush("silent constructs: 10 bodies the statements leave open x 4 silent forms (functions only for bodies that return) x 4 hosts x 3 bound names", true)
 
 	r.Rapid("random", r.Pick(3000, 40000), func(t *rapid.T) *vk.Fail {
 		g := &rgen{t: t, b: &builder{partials: map[string][]model.Node{}}}
 		g.replay = rapid.Bool().Draw(t, "replay")
-		prog := g.nodes(3)
+		g.outerFn = rapid.Bool().Draw(t, "outerFn")
+		bare := rapid.IntRange(0, 3).Draw(t, "bare") == 0
+		ag := rapid.IntRange(0, 3).Draw(t, "again") == 0
+		prog := g.nodes(3, map[string]bool{"g": false}, true)
+		for _, q := range g.qnames {
+			prog = append(prog, probe(q))
+		}
+		if g.outerFn {
+			prog = append([]model.Node{hfDef()}, prog...)
+		}
 		if g.replay {
 			prog = append([]model.Node{model.ContentFor{Name: "topblock", Body: []model.Node{T("(stored)")}}}, prog...)
 		}
-		return run(r, prog, g.b.partials, "random")
+		return run(r, prog, g.b.partials, "random", opts{bare: bare, again: ag})
 	})
 }
